@@ -12,6 +12,7 @@ import c15
 from common import err_code
 
 CONFIG = {
+    "source_ties": 'Since round 8 also tied statically: harness/py2v_retrieve.py re-reads ArchiveBase.retrieve / retrieve_single / sample_elites on every run (Refine/RetrieveRefine.v).',
     "cone": ["Base/ListUtil.v", "Base/QUtil.v", "Base/FirstArgmax.v", "Base/MixedRadix.v", "Model/Store.v", "Proofs/StoreProofs.v",
              "Model/Archive.v", "Proofs/ArchiveProofs.v", "Proofs/C01Proofs.v", "Proofs/C02Proofs.v", "Proofs/C07Proofs.v",
              "Proofs/C07NearestProofs.v", "Model/Sliding.v", "Proofs/SlidingProofs.v", "Properties/C07.v",
